@@ -265,6 +265,11 @@ def c03_catalogue(quick):
                     dict(tries=3), N=1)]
     sm = sitemap_sites()
     out.append(scenario('crash-sitemaps-skipped-start', sm['skipped'], dict(sitemaps=1), N=1))
+    # the start URL ends without a document (404 / repeated 5xx): its implicit children are still owed
+    nf = [U(1, kind='notfound', links=[dict(to=2, implicit=1), dict(to=3, implicit=1)]), U(2, path='/robots.txt', kind='notfound'),
+          U(3, path='/sitemap.xml', kind='sitemap', links=[4]), U(4)]
+    out.append(scenario('crash-sitemaps-notfound-start', nf, dict(sitemaps=1), N=1))
+    out.append(scenario('crash-sitemaps-failing-start-T1', sm['failing'], dict(sitemaps=1, tries=1), N=1))
     if not quick:
         out.append(scenario('crash-sitemaps-basic', sm['basic'], dict(sitemaps=1), N=2))
         out.append(scenario('crash-sitemaps-failing-start', sm['failing'], dict(sitemaps=1, tries=2), N=1, benign=1))
